@@ -529,7 +529,7 @@ func vC02BRun(t *testing.T, c vC02BCase) (obs vC02BObs, ranks *vc02Ranks) {
 					markStuck()
 				}
 			}
-		case "wait": // never generated (probe inputs): let the age timer of an empty batch expire; bounded
+		case "wait": // not generated (given inputs only): let the age timer of an empty batch expire; bounded
 			if batching && age < time.Minute {
 				d := 3 * age
 				if d > 500*time.Millisecond {
